@@ -220,6 +220,11 @@ func (s *Synchronizer) OnRemoteTimeout(timeout hotstuff.TimeoutMsg) {
 		return
 	}
 	if s.config.HasAggregateQC() {
+		// the aggregate QC built from a quorum of timeouts pairs every signer with its high QC
+		if _, ok := timeout.SyncInfo.QC(); !ok {
+			s.logger.Infof("Timeout message of %d carries no quorum certificate", timeout.ID)
+			return
+		}
 		// the message signature becomes part of the aggregate QC built from a quorum of timeouts
 		if !signedBy(timeout.MsgSignature, timeout.ID) {
 			s.logger.Infof("Timeout message signature is not signed by the sender %d", timeout.ID)
